@@ -38,6 +38,9 @@ structure Facts where
   frames : List Frame
   /-- the stream ends with a decode error (truncated / corrupt) after the listed frames -/
   tailErr : Bool
+  /-- the library hands that terminal error over in the same `Read` as the last decoded bytes
+  (measured: `io.ReadAll(io.LimitReader(r, avail))` already fails) -/
+  errWithData : Bool
   deriving DecidableEq, Repr
 
 /-- klauspost/compress `MaxWindowSize` default: 512 MiB. -/
@@ -48,12 +51,16 @@ def zstdDefaultMaxWindow : Nat := 536870912
 def windowLimit (maxOutput : Int) : Nat :=
   if maxOutput > 0 then min maxOutput.toNat zstdDefaultMaxWindow else zstdDefaultMaxWindow
 
-/-- Bytes the stream delivers before it stops, and whether it stops with an error: a frame whose
-window exceeds the limit fails before delivering any of its bytes. -/
-def streamAvail (wlim : Nat) (tailErr : Bool) : List Frame → Nat × Bool
-  | [] => (0, tailErr)
+/-- How a stream stops. -/
+inductive Stop | clean | window | tail
+  deriving DecidableEq, Repr
+
+/-- Bytes the stream delivers before it stops, and how it stops: a frame whose window exceeds the
+limit fails before delivering any of its bytes. -/
+def streamAvail (wlim : Nat) (tailErr : Bool) : List Frame → Nat × Stop
+  | [] => (0, if tailErr then .tail else .clean)
   | f :: rest =>
-    if f.window > wlim then (0, true)
+    if f.window > wlim then (0, .window)
     else let r := streamAvail wlim tailErr rest; (f.len + r.1, r.2)
 
 /-- `header.HasFCS && header.FrameContentSize > uint64(maxOutput)` -/
@@ -86,13 +93,17 @@ def decompressBounded (codec : Option Codec) (facts : Facts) (maxOutput : Int) :
     else
       let wlim := if c = .zstd then windowLimit maxOutput else zstdDefaultMaxWindow
       let frames := if c = .zstd then facts.frames else facts.frames.map (fun f => { f with window := 0 })
-      let (avail, err) := streamAvail wlim facts.tailErr frames
+      let (avail, stop) := streamAvail wlim facts.tailErr frames
       if maxOutput > 0 then
         let pulled := min avail (maxOutput.toNat + 1)
-        if avail ≥ maxOutput.toNat + 1 then (.tooLarge maxOutput, pulled)   -- len(out) > maxOutput
-        else if err then (.decodeErr, pulled)
+        -- io.ReadAll(io.LimitReader(reader, maxOutput+1)): the reader's error is seen only if it
+        -- arrives before, or together with, byte number maxOutput+1
+        if avail ≥ maxOutput.toNat + 2 then (.tooLarge maxOutput, pulled)
+        else if avail = maxOutput.toNat + 1 then
+          (if stop = .tail ∧ facts.errWithData then .decodeErr else .tooLarge maxOutput, pulled)
+        else if stop ≠ .clean then (.decodeErr, pulled)
         else (.ok avail, pulled)
-      else if err then (.decodeErr, avail) else (.ok avail, avail)
+      else if stop ≠ .clean then (.decodeErr, avail) else (.ok avail, avail)
 
 /-! ## readHTTPBody -/
 
